@@ -148,7 +148,28 @@ class Driver:
     def call_specfn_symbolic(self, path, sf, args):
         argk, retk = sf.sig
         sorts = {'val': Val, 'int': I, 'bool': B, 'seq': SeqV, 'str': z3.StringSort(), 'dec': Dec}
-        f = uf('spec_' + sf.name, *[sorts[k] for k in argk], sorts[retk])
+        wrap = {'val': SDyn, 'int': SInt, 'bool': SBool, 'seq': lambda t: SSeq(t, 'list'), 'str': SStr, 'dec': SDec}
+        if sf.rec:
+            f = _RECFUNS.get(sf.name)
+            if f is None:
+                f = z3.RecFunction('spec_' + sf.name, *[sorts[k] for k in argk], sorts[retk])
+                _RECFUNS[sf.name] = f
+                fn = sf.tree
+                consts = [z3.Const(f'{sf.name}!{a.arg}', sorts[k]) for a, k in zip(fn.args.args, argk)]
+                env = {a.arg: wrap[k](cst) for a, k, cst in zip(fn.args.args, argk, consts)}
+                path.specmode += 1
+                saved_pc = list(path.pc)
+                try:
+                    body = path.eval_spec_body(Frame(env, self.spec_mod(sf)), fn.body)
+                finally:
+                    path.specmode -= 1
+                if len(path.pc) != len(saved_pc):
+                    raise Unsupported(f'recursive spec function {sf.name} needs auxiliary assumptions')
+                bt = {'val': path.to_val, 'int': path.as_int, 'bool': path.truthy, 'seq': lambda v: path.as_seq(v).t,
+                      'str': lambda v: v.t, 'dec': lambda v: v.t}[retk](body)
+                z3.RecAddDefinition(f, consts, bt)
+        else:
+            f = uf('spec_' + sf.name, *[sorts[k] for k in argk], sorts[retk])
         ts = []
         for k, a in zip(argk, args):
             if k == 'val': ts.append(path.to_val(a))
@@ -367,7 +388,14 @@ class Driver:
             raise Unsupported('break/continue outside loop')
         allenv = dict(closure)
         allenv.update(p.pre_env)
-        # parameters are evaluated in the post-state through the heap; rebinding of parameter names is ignored
+        # parameters are evaluated in the post-state through the heap; rebinding of parameter names is ignored,
+        # but in-place mutation of a list parameter (value semantics: the name was re-bound by the mutation)
+        # is visible to the caller unless the function also assigns the name plainly
+        plain = {t.id for n in ast.walk(fnode) if isinstance(n, (ast.Assign, ast.AugAssign, ast.AnnAssign))
+                 for t in (n.targets if isinstance(n, ast.Assign) else [n.target]) if isinstance(t, ast.Name)}
+        for n in pnames:
+            if isinstance(fr.env.get(n), (SSeq, SSet)) and n not in plain:
+                allenv[n] = fr.env[n]
         if outcome == 'raise':
             e = value
             allowed = None
@@ -460,6 +488,7 @@ class _FakeMod:
 
 
 _SpecMod = _SpecModCls()
+_RECFUNS = {}
 
 
 def _spec_mod_lookup(orig):
@@ -467,7 +496,7 @@ def _spec_mod_lookup(orig):
         if isinstance(mod, _FakeMod):
             if name in S.SPECFUNCS:
                 return SSpecFn(S.SPECFUNCS[name])
-            if name in ('implies', 'iff', 'ev'):
+            if name in ('implies', 'iff', 'ev', 'set_of', 'forall'):
                 return SBuiltin('spec.' + name)
             v = getattr(mod.pymod, name, None)
             if isinstance(v, S.SpecFunc):
